@@ -47,6 +47,21 @@ pub fn spec(args: &[String]) -> i32 {
     let names = load_names(args.get(2).map(|s| s.as_str()).unwrap_or("/verif/lean/AscaVerif/Gen/feat_names.txt"));
     let mut g = Gen::new(seed ^ 0xC13);
     let mut st = Stats::new();
+    // every spelling the pinned tree lists for a feature (harness/data/feat_names_pinned.txt, the table as it stood when the
+    // properties were written) is still read as that feature, whatever the table of the tree under test says now
+    for row in load_names("/verif/harness/data/feat_names_pinned.txt") {
+        let canon = match guarded(|| Ok(asca::verif::lex_line(&format!("[+{}]", row[0])))) { Out::Ok(s) => s, _ => continue };
+        let kind_of = |s: &str| s.split(';').nth(1).and_then(|t| t.split('|').next()).unwrap_or("?").to_string();
+        for sp in &row {
+            for text in [format!("[+{sp}]"), format!("[+{}]", sp.to_uppercase()), format!("[ + {} ]", sp.chars().map(|c| c.to_string()).collect::<Vec<_>>().join(" "))] {
+                st.inc("c13.pinned_spellings");
+                let got = match guarded(|| Ok(asca::verif::lex_line(&text))) { Out::Ok(s) => s, o => o.class() };
+                if !got.starts_with("ok") || kind_of(&got) != kind_of(&canon) {
+                    println!("FINDING c13-feature-spelling-differs spelling={sp:?} text={text:?} lexed={:?} canonical={:?}", got.chars().take(120).collect::<String>(), kind_of(&canon));
+                }
+            }
+        }
+    }
     let n = if thorough { 400000 } else { 30000 };
     for case in 0..n {
         let mut rule = g.rule(if case % 3 == 0 { Profile::Basic } else { Profile::Tame });
